@@ -61,11 +61,12 @@ def build_jobs(work, quick, rng):
             ["v_parallel_2d", False], ["mode_solve", False], ["v_parallel_1d", False]]
     for g in ([2, 2], [1, 2], [2, 1], [2, 3]) + (() if quick else ([3, 2], [1, 3], [3, 3])):
         add("swapper", int(np.prod(g)), {"shape": [6, 6, 7], "nprocs": g, "walk": walk})
-    # over-decomposed grids: more processes than points along a direction in SOME layouts (empty blocks, but no rank without
-    # any data: such a rank would take itself for the plot-only rank, DESIGN 13.5)
+    # over-decomposed grids: more processes than points along a direction in SOME layouts (empty blocks)
     add("handler", 4, {"shape": [3, 8, 5], "nprocs": [4], "layouts": {"a": [0, 1, 2], "b": [1, 0, 2], "c": [2, 1, 0]}})
     add("handler", 6, {"shape": [2, 5, 4], "nprocs": [3, 2], "layouts": {"A": [0, 1, 2], "B": [0, 2, 1], "C": [2, 1, 0]}})
     add("swapper", 6, {"shape": [6, 2, 4], "nprocs": [3, 2], "walk": walk})
+    # data ranks that own nothing in any layout (not the plot-only rank: they are members of the sub-communicators)
+    add("handler", 4, {"shape": [1, 4, 1], "nprocs": [2, 2], "layouts": {"A": [0, 1, 2], "B": [2, 1, 0]}})
     for g in ([2, 2], [1, 3], [2, 1]):
         add("minmax", int(np.prod(g)), {"shape": [4, 5, 6, 7], "nprocs": g, "root": 0})
     add("minmax", 4, {"shape": [4, 5, 6, 7], "nprocs": [2, 2], "root": 3})
